@@ -6,6 +6,7 @@ import Driver.Resolve
 import Driver.WireJ
 import Driver.TiiJ
 import Driver.JsonJ
+import Driver.FrontJ
 
 def main (args : List String) : IO UInt32 := do
   match args with
@@ -25,6 +26,9 @@ def main (args : List String) : IO UInt32 := do
       | _ => Driver.Compile.judge "C14" j)
     return 0
   | ["C11"] => Driver.runJudge Driver.WireJ.judgeC11; return 0
+  | ["C12"] => Driver.runJudge (Driver.FrontJ.judge "C12"); return 0
+  | ["C13"] => Driver.runJudge (Driver.FrontJ.judge "C13"); return 0
+  | ["C19"] => Driver.runJudge (Driver.FrontJ.judge "C19"); return 0
   | ["C16"] => Driver.runJudge Driver.JsonJ.judge; return 0
   | ["C17"] => Driver.runJudge Driver.TiiJ.judge; return 0
   | ["C18"] => Driver.runJudge Driver.WireJ.judgeC18; return 0
